@@ -762,6 +762,35 @@ func ruleLegacyNoRaw(c *Check, p *Program, rule string) {
 		c.Cond(guarded || bound, rule, "Compress#legacy-has-no-raw-blocks", p.InstrPos(ci), "in legacy mode the raw-block fallback is unreachable (the legacy format has no raw flag): either the fallback is guarded by !legacy or the legacy destination is at least CompressBlockBound(8 MiB) so that the compressor cannot return 0",
 			fmt.Sprintf("guarded by !legacy: %v; bound-sized legacy destination: %v", guarded, bound), "the fallback is reachable in legacy mode: 8 MiB of incompressible data is compressed into an 8 MiB buffer, the compressor returns 0 and the block is written with the raw flag, which legacy readers interpret as a size >= 2^31")
 	}
+	// In legacy mode the compressor gets the whole block buffer, not a destination cut to len(src): the cut is the
+	// device that makes the compressor give up on incompressible data, which is what selects the raw fallback.
+	whole, cut := false, ""
+	allInstrs(cp, func(in ssa.Instruction) {
+		sl, ok := in.(*ssa.Slice)
+		if !ok || sl.High == nil || !(loadField(sl.X) == "FrameDataBlock.data" || derivesFromField(sl.X, "FrameDataBlock.data")) {
+			return
+		}
+		call, isC := sl.High.(*ssa.Call)
+		if !isC {
+			return
+		}
+		bi, isB := call.Call.Value.(*ssa.Builtin)
+		if !isB {
+			return
+		}
+		ats := atomsOfBlock(in.Block())
+		switch bi.Name() {
+		case "cap":
+			if hasAtom(ats, "legacy", "", true) {
+				whole = true
+			}
+		case "len":
+			if len(cp.Params) > 2 && call.Call.Args[0] == ssa.Value(cp.Params[2]) && !hasAtom(ats, "legacy", "", false) {
+				cut = p.InstrPos(in)
+			}
+		}
+	})
+	c.Cond(whole && cut == "", rule, "Compress#legacy-destination-not-cut-to-source", p.Pos(cp.Pos()), "for a legacy frame the block compressor is given the whole block buffer; the destination is cut to len(src) (to provoke the raw fallback on incompressible data) only for non-legacy frames", "data[:cap(data)] under legacy; data[:len(src)] only under !legacy", fmt.Sprintf("whole buffer used under legacy: %v; destination cut to len(src) without a !legacy guard at: %s - every incompressible legacy block, not only a full 8 MiB one, is stored with the raw flag", whole, cut))
 }
 
 // ---------------------------------------------------------------------------
